@@ -823,6 +823,87 @@ def constructor_argument_forms(ctx):
     ctx.case({"directed": "constructor-argument-forms"}, True)
 
 
+def swapped_consumer_inputs(ctx):
+    """Strict mode and default consistency follow PARALLEL renames (one with_inputs() call / one rename_inputs= argument
+    whose targets are other sources: a swap, a shift): the annotation and the default of a parameter are found under its
+    NEW external name. A producer that does not fit the parameter now behind the name is rejected, the fitting one is
+    accepted; a shared name whose readers disagree about having a default is rejected. Function nodes and gates, flat
+    and inside a nested graph."""
+    from hypergraph import FunctionNode, Graph, GraphConfigError, IfElseNode
+
+    def cons(x: int, y: str) -> str:
+        return y * x
+
+    def cons_d(x: int, y: str = "d") -> str:
+        return y * x
+
+    def gate_f(x: int, y: str) -> bool:
+        return True
+
+    def p_int() -> int:
+        return 1
+
+    def p_str() -> str:
+        return "s"
+
+    def other(x: str, q: int) -> int:  # reads the name `x` WITHOUT a default
+        return q
+
+    def mk_consumer(kind, how):
+        if kind == "fn":
+            nd = FunctionNode(cons, name="c", output_name="r") if how != "ctor" else FunctionNode(cons, name="c", output_name="r", rename_inputs={"x": "y", "y": "x"})
+        else:
+            nd = IfElseNode(gate_f, when_true="t", when_false="t2", name="c") if how != "ctor" else IfElseNode(gate_f, when_true="t", when_false="t2", name="c", rename_inputs={"x": "y", "y": "x"})
+        if how == "with_inputs":
+            nd = nd.with_inputs(x="y", y="x")
+        elif how == "shift":
+            nd = nd.with_inputs(x="y", y="z")  # external y -> param x (int); external z -> param y (str)
+        return nd
+
+    targets = [FunctionNode(lambda: 0, name="t", output_name="to"), FunctionNode(lambda: 0, name="t2", output_name="to2")]
+    for kind in ("fn", "gate"):
+        for how in ("with_inputs", "ctor", "shift"):
+            for nested in (False, True):
+                if nested and kind == "gate":
+                    continue
+                # after the rename the external name `y` is the int parameter x (swap and shift alike)
+                for prod, fits in ((p_int, True), (p_str, False)):
+                    c = mk_consumer(kind, how)
+                    extra = targets if kind == "gate" else []
+                    consumer_side = [Graph([c], name="box").as_node()] if nested else [c]
+                    producer = FunctionNode(prod, name="p", output_name="y")
+                    case = {"flawed": f"{kind} consumer with inputs renamed by {how}, producer of 'y' typed {prod.__annotations__['return']}, nested={nested}", "flaw": "strict-type-mismatch-behind-parallel-rename" if not fits else "none"}
+                    ctx.obs["flaws_injected" if not fits else "must_accept_checked"] += 1
+                    try:
+                        Graph([producer, *consumer_side, *extra], strict_types=True, name="sw")
+                        st = "accepted"
+                    except GraphConfigError as e:
+                        st = "config-error"
+                        err = e
+                    except Exception as e:  # noqa: BLE001
+                        st = "other-error"
+                        err = e
+                    if fits and st != "accepted":
+                        ctx.violation("C19:valid-graph-rejected:parallel-rename-types", f"{case['flawed']}: external name y is the int parameter now; rejected: {str(err)[:160]!r}", case)
+                    elif not fits and st == "accepted":
+                        ctx.violation("C19:flaw-accepted:strict-type-mismatch-behind-parallel-rename", f"{case['flawed']}: a str producer feeding the int parameter (behind the name y after the rename) was accepted in strict mode", case)
+                    elif not fits and st == "other-error":
+                        ctx.violation("C19:flaw-wrong-error:strict-type-mismatch-behind-parallel-rename", f"{case['flawed']}: raised {err!r}", case)
+    # defaults follow the swap as well: cons_d(x, y='d') swapped -> external x carries the default; `other` reads x without one
+    for how in ("with_inputs", "ctor"):
+        c = FunctionNode(cons_d, name="c", output_name="r").with_inputs(x="y", y="x") if how == "with_inputs" else FunctionNode(cons_d, name="c", output_name="r", rename_inputs={"x": "y", "y": "x"})
+        ctx.obs["flaws_injected"] += 1
+        case = {"flawed": f"cons_d(x, y='d') swapped by {how} next to other(x, q): x has a default in one reader only", "flaw": "inconsistent-defaults-behind-parallel-rename"}
+        try:
+            Graph([c, FunctionNode(other, name="o", output_name="oo")], name="swd")
+            ctx.violation("C19:flaw-accepted:inconsistent-defaults-behind-parallel-rename", f"{case['flawed']}: accepted", case)
+        except GraphConfigError:
+            pass
+        except Exception as e:  # noqa: BLE001
+            ctx.violation("C19:flaw-wrong-error:inconsistent-defaults-behind-parallel-rename", f"{case['flawed']}: raised {e!r}", case)
+    ctx.case({"directed": "swapped-consumer-inputs"}, True)
+
+
 def run(ctx):
     n = 28 if ctx.tier == "quick" else 600
     core.WARM_P = 0.0
@@ -841,6 +922,7 @@ def run(ctx):
         nested_consumer_types(ctx)
         explicit_edges_by_object(ctx)
         constructor_argument_forms(ctx)
+        swapped_consumer_inputs(ctx)
         for label, spec, ok in independent_gates_cases():
             st, e = try_build(spec)
             ctx.obs["flaws_injected" if not ok else "must_accept_checked"] += 1
